@@ -20,3 +20,5 @@ mod c06_bits;
 mod c07_cmp;
 #[cfg(kani)]
 mod a1_axioms;
+#[cfg(kani)]
+mod c15_slices;
